@@ -437,7 +437,25 @@ func propCases(prop string, g *Gen, n int) []*Case {
 				}
 				knowingOnly = true
 			}
+			var extraRefs []*Ref
+			if i%25 == 19 {
+				// an errno that came from the same OS on another CPU family (its numbering differs): it stays the
+				// foreign value, it is not the local errno of the same number
+				n := []int64{2, 4, 22, 110}[g.r.intn(4)]
+				r = &R{Op: "foreignerrno", I: []int64{n}}
+				if g.r.chance(60) {
+					r = &R{Op: []string{"patherror", "syscallerror"}[g.r.intn(2)], Kids: []*R{r}, S: []string{"open", "/a/" + g.pathWord()}}
+				}
+				for k := g.r.intn(3); k > 0; k-- {
+					r = g.Wrapper(r, 1)
+				}
+				if _, isNil := specText(r); isNil {
+					r = &R{Op: "foreignerrno", I: []int64{n}}
+				}
+				extraRefs = []*Ref{{Kind: "recipe", R: &R{Op: "errno", I: []int64{n}}}, {Kind: "recipe", R: &R{Op: "foreignerrno", I: []int64{n}}}}
+			}
 			refs := g.identityRefs(r, 3)
+			refs = append(refs, extraRefs...)
 			// the whole error rebuilt, and references of the same text but another type next to the right one
 			refs = append(refs, &Ref{Kind: "recipe", R: cloneR(r)})
 			refs, anyObs := twinRefs(refs, 3)
@@ -472,6 +490,17 @@ func propCases(prop string, g *Gen, n int) []*Case {
 				wr.Kids = []*R{cloneR(leaf)}
 				hops := [][][]string{{g.proc(1)}, {g.proc(2)}, g.hopSeq(2, false)}
 				add(&Case{R: wr, Obs: names("text", "shape"), Oracles: []string{"C04"}, Hops: hops})
+			}
+		}
+		// wrappers that replace the message: the text is not "prefix: cause" -- empty over a non-empty
+		// cause, ending with the separator, containing the cause elsewhere than at the end, equal to it
+		for _, msg := range []string{"", "gave up: ", "boom: later", "boom", "x boom", "boom: "} {
+			for _, leaf := range []*R{{Op: "stdnew", S: []string{"boom"}}, {Op: "new", S: []string{"boom"}}} {
+				wr := &R{Op: "uwrap", S: []string{"full", msg}, Kids: []*R{cloneR(leaf)}, Strs: []string{}}
+				for _, r := range []*R{wr, {Op: "wrap", S: []string{"ctx"}, Kids: []*R{cloneR(wr)}}} {
+					hops := [][][]string{{g.proc(1)}, {g.proc(2)}, g.hopSeq(2, false), {g.proc(1), {}}}
+					add(&Case{R: r, Obs: names("text", "shape"), Oracles: []string{"C04"}, Hops: hops})
+				}
 			}
 		}
 		for i := 0; i < n; i++ {
@@ -611,6 +640,23 @@ func propCases(prop string, g *Gen, n int) []*Case {
 			refs := []*Ref{{Kind: "recipe", R: cloneR(e)}}
 			obs := names("root", "hints", "details", "links", "keys", "domain", "tags", "flags", "codes", "os", "text")
 			obs = append(obs, asObs()...)
+			if i%6 == 3 {
+				// the reference itself carries a Mark below some wrappers: the mark of the reference is
+				// that of its whole chain, not the inner mark
+				a, b := g.Leaf(0), g.Leaf(0)
+				inner := &R{Op: "mark", Kids: []*R{a, b}}
+				ref = g.Wrapper(inner, 1)
+				if g.r.chance(50) {
+					ref = g.Wrapper(ref, 1)
+				}
+				if _, isNil := specText(ref); isNil {
+					ref = &R{Op: "withstack", Kids: []*R{inner}}
+				}
+				r = &R{Op: "mark", Kids: []*R{e, ref}}
+				refs = append(refs, &Ref{Kind: "recipe", R: cloneR(b)}, &Ref{Kind: "recipe", R: cloneR(a)},
+					&Ref{Kind: "recipe", R: cloneR(ref)}, &Ref{Kind: "recipe", R: cloneR(inner)})
+				obs = append(obs, isObs(len(refs))...)
+			}
 			add(&Case{R: r, Refs: refs, Obs: obs, Oracles: []string{"C07mark"}, Hops: [][][]string{knowing1, {g.proc(1)}}})
 		}
 	case "C08":
@@ -630,11 +676,23 @@ func propCases(prop string, g *Gen, n int) []*Case {
 				if _, isNil := specText(e); isNil {
 					e = g.Leaf(0)
 				}
+				var innerRef *R
+				if g.r.chance(25) {
+					// the reference carries a Mark of its own below a wrapper
+					innerRef = g.Leaf(0)
+					ref = g.Wrapper(&R{Op: "mark", Kids: []*R{ref, innerRef}}, 1)
+					if _, isNil := specText(ref); isNil {
+						ref, innerRef = g.Leaf(0), nil
+					}
+				}
 				r = &R{Op: "mark", Kids: []*R{e, ref}}
 				if g.r.chance(50) {
 					r = g.Wrapper(r, 1)
 				}
 				refs = g.identityRefs(r, 2)
+				if innerRef != nil {
+					refs = append(refs, &Ref{Kind: "recipe", R: cloneR(innerRef)})
+				}
 				refs = append(refs, &Ref{Kind: "recipe", R: cloneR(ref)}, &Ref{Kind: "recipe", R: g.perturb(ref)},
 					&Ref{Kind: "recipe", R: cloneR(e)})
 			}
@@ -811,6 +869,26 @@ func propCases(prop string, g *Gen, n int) []*Case {
 				}
 				if _, isNil := specText(r); isNil {
 					r = nc(nc(g.Leaf(0)))
+				}
+			}
+			if i%12 == 7 {
+				// a layer that answers As through its own method, above a node that is directly
+				// assignable to the same target (possibly with annotation layers in between, under
+				// further wrappers, in a branch): the outermost match wins, by whichever mechanism
+				val := &R{Op: "uleaf", S: []string{"val", g.sU()}, I: []int64{int64(g.r.intn(3))}, Strs: []string{}}
+				var below *R = val
+				for k := g.r.intn(3); k > 0; k-- {
+					below = g.Wrapper(below, 1)
+				}
+				r = &R{Op: "uwrap", S: []string{"as", g.sU()}, Kids: []*R{below}, Strs: []string{}}
+				for k := g.r.intn(3); k > 0; k-- {
+					r = g.Wrapper(r, 1)
+				}
+				if g.r.chance(30) {
+					r = &R{Op: "join", Kids: []*R{g.Leaf(0), r}}
+				}
+				if _, isNil := specText(r); isNil {
+					r = &R{Op: "uwrap", S: []string{"as", "as layer"}, Kids: []*R{val}, Strs: []string{}}
 				}
 			}
 			refs := g.identityRefs(r, 3)
